@@ -32,30 +32,16 @@ theorem failGate_spec (st : String) :
 -- the loops, one iteration at a time ---------------------------------------------------------------------
 theorem syncMacro_eq (m : Machine) (u : UEnv) (e : Ev) (s : St) : syncMacro m u e s = syncProcessed m u e s := rfl
 
-/-- `drainLoop` pops the HEAD of the queue, runs one macrostep on the rest, and goes on unless it failed -/
-theorem drainLoop_cons (m : Machine) (u : UEnv) (budget : Nat) (s : St) (q : QEv) (rest : List QEv)
-    (hq : s.queue = q :: rest) (hrun : s.status = "running") :
-    drainLoop m u (budget + 1) s =
+theorem syncMacro_eq_drainMacro (m : Machine) (u : UEnv) (e : Ev) (s : St) : syncMacro m u e s = drainMacro m u e s := rfl
+
+/-- `drainLoop` pops the HEAD of the queue (unless it is a marked event that trips the bound:
+    `drainLoop_trip`), runs one macrostep on the rest, and goes on unless it failed -/
+theorem drainLoop_cons (m : Machine) (u : UEnv) (fuel c : Nat) (s : St) (q : QEv) (rest : List QEv)
+    (hq : s.queue = q :: rest) (hrun : s.status = "running") (ht : syncTrips m c q = false) :
+    drainLoop m u (fuel + 1) c s =
       if (syncMacro m u q.ev { s with queue := rest }).err.isSome = true then syncMacro m u q.ev { s with queue := rest }
-      else drainLoop m u budget (syncMacro m u q.ev { s with queue := rest }) := by
-  cases s with
-  | mk cfg hist queue status trace err ctx rd errors =>
-    simp only at hq hrun
-    subst hq; subst hrun
-    simp only [drainLoop, syncMacro, ne_eq, not_true_eq_false, if_false]
-    rfl
-
-theorem drainLoop_nil (m : Machine) (u : UEnv) (budget : Nat) (s : St) (hq : s.queue = []) :
-    drainLoop m u (budget + 1) s = s := by
-  cases s with
-  | mk cfg hist queue status trace err ctx rd errors =>
-    simp only at hq
-    subst hq
-    simp only [drainLoop]
-
-theorem drainLoop_zero (m : Machine) (u : UEnv) (s : St) :
-    drainLoop m u 0 s = if s.queue.isEmpty then s else { s with queue := [] } := by
-  simp only [drainLoop]
+      else drainLoop m u fuel (chainedNext c q) (syncMacro m u q.ev { s with queue := rest }) :=
+  drainLoop_step m u fuel c s q rest hq hrun ht
 
 /-- the run loop: not running -> stop; empty queue -> stop; else pop the head and run `asyncStep` on the rest -/
 theorem asyncDrain_cons (m : Machine) (u : UEnv) (fuel : Nat) (s : St) (q : QEv) (rest : List QEv)
@@ -90,24 +76,12 @@ theorem syncMacro_status (m : Machine) (u : UEnv) (e : Ev) (s : St) :
     StatusStep s.status (syncMacro m u e s).status := syncProcessed_status m u e s
 
 /-- the sync drain: status stays, or goes from "running" to "done" -/
-theorem drainLoop_status (m : Machine) (u : UEnv) : ∀ (budget : Nat) (s : St),
-    StatusStep s.status (drainLoop m u budget s).status := by
-  intro budget
-  induction budget with
-  | zero => intro s; rw [drainLoop_zero]; split <;> exact Or.inl rfl
-  | succ n ih =>
-    intro s
-    cases hq : s.queue with
-    | nil => rw [drainLoop_nil m u n s hq]; exact Or.inl rfl
-    | cons q rest =>
-      by_cases hrun : s.status = "running"
-      · rw [drainLoop_cons m u n s q rest hq hrun]
-        have h1 : StatusStep s.status (syncMacro m u q.ev { s with queue := rest }).status :=
-          syncMacro_status m u q.ev { s with queue := rest }
-        split
-        · exact h1
-        · exact StatusStep.trans h1 (ih _)
-      · rw [drainLoop_not_running m u n hrun]; split <;> exact Or.inl rfl
+theorem drainLoop_status (m : Machine) (u : UEnv) (fuel c : Nat) (s : St) :
+    StatusStep s.status (drainLoop m u fuel c s).status := by
+  apply drainLoop_ind m u (fun s' => StatusStep s.status s'.status)
+  · intro s' q h; exact h
+  · intro s' e h; exact StatusStep.trans h (syncProcessed_status m u e s')
+  · exact Or.inl rfl
 
 /-- the async run loop: the same, or the model's own marker `HANG` (fuel of the MODEL exhausted) -/
 theorem asyncDrain_status (m : Machine) (u : UEnv) : ∀ (fuel : Nat) (s : St),
@@ -196,7 +170,7 @@ theorem syncStart_status (m : Machine) (u : UEnv) (s : St) : StatusStep "running
   · exact h1
   · split
     · exact h2
-    · exact StatusStep.trans h2 (drainLoop_status m u _ _)
+    · exact StatusStep.trans h2 (drainLoop_status m u _ _ _)
 
 /-- async `start()`: running, done, "stopped" (the start failed and raised), or the model's `HANG` -/
 theorem asyncStart_status (m : Machine) (u : UEnv) (s : St) :
